@@ -403,10 +403,14 @@ pub fn classify_stderr(stderr: &str) -> String {
         "duplicate-infosets-name".into()
     } else if stderr.contains("some infosets had no names") {
         "duplicate-infosets-number".into()
-    } else if let Some(i) = stderr.find("#game-error: ") {
-        let rest = &stderr[i + 13..];
-        let word: String = rest.chars().take_while(|c| c.is_ascii_alphanumeric()).collect();
-        format!("game-error {}", word)
+    } else if stderr.contains("#game-error") {
+        // the category is the documented anchor; the rule is whichever `GameError` name the
+        // message carries (wherever the message puts it)
+        let kinds = ["EmptyChance", "NonPositiveChance", "ProbabilitiesNotEqual", "EmptyPlayer", "ActionsNotEqual", "ActionsNotUnique", "ImperfectRecall", "NonFinitePayoff"];
+        match kinds.iter().find(|k| stderr.contains(*k)) {
+            Some(k) => format!("game-error {}", k),
+            None => "game-error".to_string(),
+        }
     } else if stderr.contains("src/gambit.rs") && stderr.contains("called `Result::unwrap()` on an `Err` value: [") {
         "internal-payoff-arity".into()
     } else if stderr.contains("ThreadOverflow") {
